@@ -145,7 +145,7 @@ def algorithms_agree(ctx, n):
 
             def ncoord(res):
                 cs = res["coord_summary"]
-                return sum(3 * cs[k]["xyz"] + 2 * cs[k]["xy"] + cs[k]["z"] for k in ("adjusted", "constrained"))
+                return sum(3 * cs[k]["xyz"] + 2 * cs[k]["xy"] + cs[k]["z"] for k in ("adjusted",))      # (constrained ones are counted among them)
             if ill and nadj is not None and any(oks[a] and ncoord(outs[a]["res"]) < nadj for a in ALGS):
                 key = "%s:removed-points-depend-on-algorithm" % ctx.pid
             if ctx.violation({"kind": "E:algorithms-refusal", "gkf": txt, "adjusted_by": oks,
